@@ -40,6 +40,10 @@ CONSTANTS Alphabet = "%(alpha)s"
 INVARIANTS TypeOK NestBounded %(laws)s EmitSeq
 CHECK_DEADLOCK FALSE
 """
+FAULT_CFG = """SPECIFICATION Spec
+INVARIANTS EditLaws SkeletonsBalanced EmitCase
+CHECK_DEADLOCK FALSE
+"""
 PIPE_MC = """SPECIFICATION Spec
 CONSTANTS MaxDepth = 4
  AllowRaise = %s
@@ -105,7 +109,7 @@ def storable(text):
 
 
 def _parse_worker(args):
-    job, lang, cases, scratch, tplmod = args
+    job, lang, cases, scratch, tplmod, modes = args
     rec = W.Recorder.install()
     pages = {}
     for cid, atoms in cases:
@@ -122,7 +126,7 @@ def _parse_worker(args):
         if len(hangs) >= MAX_HANGS:
             break                      # the violation is established; do not wait 30 s per remaining text
         text = W.concretise(atoms)
-        for mode in MODES:
+        for mode in modes:
             if mode == "tpl":
                 if "Template:X%d" % cid not in pages or (tplmod and cid % tplmod[0] != tplmod[1] and len(atoms) > 1):
                     continue
@@ -151,14 +155,14 @@ def _parse_worker(args):
     return traces, crashes, hangs, structured, nparse
 
 
-def execute(ctx, plan, tplmod=None):
+def execute(ctx, plan, tplmod=None, modes=MODES):
     """plan: list of (lang, [(cid, atoms)]); tplmod (m, r): template-body mode only for texts with
     cid % m == r (and all single lexemes)."""
     jobs = []
     for lang, cases in plan:
         for ch in chunks(cases, max(1, min(ctx.ncpu * 2, len(cases) // 400 + 1))):
             if ch:
-                jobs.append((len(jobs), lang, ch, ctx.scratch, tplmod))
+                jobs.append((len(jobs), lang, ch, ctx.scratch, tplmod, modes))
     traces = {}
     crashes, hangs, structured = [], [], set()
     nparse = 0
@@ -423,6 +427,39 @@ def run(ctx):
     t1 = time.time()
     traces, crashes, hangs, structured, nparse = execute(ctx, sorted(plan.items()), tplmod=(4, ctx.seed % 4) if quick else None)
     ctx.note("generation %.0fs, %d parses in %.0fs" % (t1 - t0, nparse, time.time() - t1))
+    # ---- third family: well-formed document x one fault (spec/WikiFaults.tla)
+    t1 = time.time()
+    rf = tlc.run(ctx, "WikiFaults", FAULT_CFG, name="faults", deadlock=False, timeout=1200)
+    if not rf.ok:
+        ctx.machinery("WikiFaults.tla failed: %s %s\n%s" % (rf.kind, rf.name, rf.out[-1200:]))
+    faults = sorted((e for e in rf.emitted if "kind" in e), key=lambda e: (e["sk"], e["kind"], e["pos"], e["lex"]))
+    if not faults or len(faults) != rf.distinct:
+        ctx.machinery("WikiFaults.tla emitted %d cases for %d states" % (len(faults), rf.distinct))
+    gen_states += rf.distinct
+    fplan = {l: [] for l in W.LANGS}
+    nfault = 0
+    fbase = len(cases)
+    import zlib
+    for e in faults:
+        # quick: every document, delete, duplicate and swap; a third of the inserted lexemes per position, rotating with the seed
+        if quick and e["kind"] == "insert" and (zlib.crc32(e["lex"].encode()) + e["pos"] + e["sk"] + ctx.seed) % 3:
+            continue
+        cid = len(cases)
+        cases.append((e["s"], 0, 0, "fault"))
+        fplan[W.LANGS[(cid + ctx.seed) % nl]].append((cid, e["s"]))
+        nfault += 1
+    ftr, fcr, fhg, fst, fn = execute(ctx, sorted(fplan.items()), modes=("nodb", "db"))
+    for k, (cnt, sample) in ftr.items():
+        if k in traces:
+            traces[k][0] += cnt
+        else:
+            traces[k] = [cnt, sample]
+    crashes += fcr
+    hangs += fhg
+    structured |= fst
+    nparse += fn
+    sizes["well-formed documents x one fault"] = {"generated": len(faults), "parsed": nfault}
+    ctx.note("faults: %d of %d one-edit documents, %d parses in %.0fs" % (nfault, len(faults), fn, time.time() - t1))
     # ---- TLC decides every distinct stage trace
     keys = sorted(traces)
     raised, malformed, tstates, ttrans = validate_traces(ctx, keys)
@@ -494,7 +531,9 @@ def run(ctx):
                   states=mc_states + gen_states + tstates, transitions=mc_trans + ttrans,
                   pumped_texts=len(items), pump_series=nseries, zone_unit_series=len(zs), pump_measurements=nmeasured,
                   action_coverage=cov, nonvacuity={"AllowRaise": [nv.kind, nv.name]},
-                  rule="every sequence WikiTokens.tla generates (%s; %d simulated of 10/30/60 lexemes over Markup; nesting "
+                  rule="every one-edit variant WikiFaults.tla generates of its 24 well-formed documents (insert a Structural lexeme / "
+                       "delete / duplicate / swap at every position; quick: a third of the inserts, rotating) and "
+                       "every sequence WikiTokens.tla generates (%s; %d simulated of 10/30/60 lexemes over Markup; nesting "
                        "counter <= 40) is parsed with uparser.parse_string without a database, with the production "
                        "database and as a template body, for %s; each parse's stage trace is validated by TLC against "
                        "ParsePipeline.tla; distinct non-trivial = distinct texts whose tree (no database) contains a node "
@@ -538,7 +577,7 @@ def replay(ctx, path):
     atoms = rec["atoms"]
     lang = rec["lang"] if rec.get("lang") in W.LANGS else "en"
     mode = rec["mode"].split(" ")[0]
-    traces, crashes, hangs, _, _ = _parse_worker((0, lang, [(0, atoms)], ctx.scratch, None))
+    traces, crashes, hangs, _, _ = _parse_worker((0, lang, [(0, atoms)], ctx.scratch, None, MODES))
     keys = sorted(traces)
     raised, malformed, _, _ = validate_traces(ctx, keys, name="replay")
     n = 0
